@@ -1,4 +1,5 @@
 import Rink.Model.Number
+import Rink.Model.Substance
 /-!
 Model of `core/src/loader/registry.rs` (`lookup`, `canonicalize`) and `Context::lookup`.
 The registry is a record of lookup *functions* so that theorems hold for every database and
@@ -28,6 +29,8 @@ structure Registry where
   category : String → Option String
   categoryName : String → Option String
   isQuantityName : String → Bool := fun _ => false
+  /-- `registry.substances` -/
+  substance : String → Option Substance := fun _ => none
 
 namespace Registry
 
